@@ -253,6 +253,14 @@ func C19Scenario(tier string) *engine.Scenario {
 						&saotypes.MsgReportFaults{Creator: w.A(ri).S(), Provider: v.prov, Faults: []*saotypes.Fault{&f}}))
 				}
 			}
+			// a report carrying several entries: only the valid ones may be recorded
+			if has {
+				good := saotypes.Fault{DataId: world.Data1, OrderId: 1, ShardId: mine, CommitId: "zz", Provider: accused}
+				bad1 := saotypes.Fault{DataId: world.Data2, OrderId: 1, ShardId: mine, CommitId: "zz", Provider: accused}
+				bad2 := saotypes.Fault{DataId: world.Data1, OrderId: 1, ShardId: shardOf[other], CommitId: "zz", Provider: accused}
+				out = append(out, Tx("report", fmt.Sprintf("report(by=W,accused=%s,list[bad,good,bad])", w.NameOf(accused)),
+					&saotypes.MsgReportFaults{Creator: w.A(world.W).S(), Provider: accused, Faults: []*saotypes.Fault{&bad1, &good, &bad2}}))
+			}
 			for _, ri := range []int{world.S1, world.S2, world.W, world.G, world.X} {
 				f := saotypes.Fault{DataId: world.Data1, OrderId: 1, ShardId: mine, CommitId: o1.Commit, Provider: accused}
 				out = append(out, Tx("recover", fmt.Sprintf("recover(by=%s,accused=%s)", w.A(ri).Name, w.NameOf(accused)),
